@@ -217,7 +217,12 @@ class ProgGen:
             return self.int_lit()
         if c == 'cast':
             if self.feat('bools') and self.chance(0.5):
-                return ('is', self.gen_bool(d - 1), 'int')
+                b = self.gen_bool(d - 1)
+                if self.cval(b) is None:
+                    return ('is', b, 'int')
+                # a constant bool cast to int: hidc folds it to a literal that is still coercible
+                # to byte, the README does not say so - never make that observable (DESIGN 7)
+                return self.int_lit()
             if self.feat('bytes'):
                 return ('is', self.gen_byte(d - 1), 'int')
             return self.int_lit()
